@@ -18,11 +18,16 @@ static spec_u128 vx_h; static size_t vx_h_i;
 #define VX_H_BOUND() (vx_h_i <= 19 ? vx_h < (spec_u128)SPEC_POW10[vx_h_i] : 1)
 #ifdef VX_CBMC
 /* one induction step: the code has just folded character vx_h_i into num */
+#ifndef VX_H_lemma_int_rt
 #define VX_H_STEP(num) do { \
     __CPROVER_assert(vx_h_i < vx_len && VX_H_DIGIT() <= 9, "[C04] ghost: the code folds in only decimal digits, in order"); \
     vx_h = VX_H_TIMES10(vx_h) + VX_H_DIGIT(); vx_h_i++; \
     __CPROVER_assert((spec_u128)(num) == vx_h && VX_H_BOUND(), "[C04][C01] ghost induction step: num == Horner value of the characters consumed (< 10^i, no wrap)"); \
-    __CPROVER_assume((spec_u128)(num) == vx_h && VX_H_BOUND()); VX_H_LEMMA(num); } while (0)
+    __CPROVER_assume((spec_u128)(num) == vx_h && VX_H_BOUND()); } while (0)
+#else
+/* in the round-trip lemma only the position counter and the lemma's own induction step are needed (the Horner facts are proved in dec_u64) */
+#define VX_H_STEP(num) do { vx_h_i++; VX_H_LEMMA(num); } while (0)
+#endif
 /* L-INT-RT only: after folding in j = vx_h_i most significant digits of from_integer's output, num == |v| / 10^(n-j) == vx_gv[n-j] */
 #ifdef VX_H_lemma_int_rt
 #define VX_H_LEMMA(num) do { if (vx_rt_active && vx_h_i <= vx_g_n && vx_g_n <= 20) { \
@@ -33,10 +38,15 @@ static spec_u128 vx_h; static size_t vx_h_i;
 #endif
 static bool vx_rt_active;
 /* the 20th digit: the ghost folds it in before the code's overflow checks */
+#ifndef VX_H_lemma_int_rt
 #define VX_H_LAST() do { \
     __CPROVER_assert(vx_h_i == 19 && vx_h_i + 1 == vx_len && VX_H_DIGIT() <= 9, "[C04] ghost: the separately handled character is the 20th and last, a digit"); \
     vx_h = VX_H_TIMES10(vx_h) + VX_H_DIGIT(); vx_h_i++; } while (0)
-#define VX_H_CHECK(num) do { __CPROVER_assert((spec_u128)(num) == vx_h, "[C04][C01] ghost: after the 20th digit num == Horner value (no wrap)"); VX_H_LEMMA(num); } while (0)
+#define VX_H_CHECK(num) do { __CPROVER_assert((spec_u128)(num) == vx_h, "[C04][C01] ghost: after the 20th digit num == Horner value (no wrap)"); } while (0)
+#else
+#define VX_H_LAST() do { vx_h_i++; } while (0)
+#define VX_H_CHECK(num) VX_H_LEMMA(num)
+#endif
 #else
 #define VX_H_STEP(num)
 #define VX_H_LAST()
@@ -51,9 +61,15 @@ static uint64_t vx_gv[22]; static uint8_t vx_gd[22]; static unsigned vx_g_i, vx_
 #define VX_MAG(v) ((v) < 0 ? (uint64_t)0 - (uint64_t)(v) : (uint64_t)(v))
 #define VX_G_BEGIN(v) do { vx_g_i = 0; vx_g_n = 0; } while (0)
 #ifdef VX_CBMC
+/* The link fact of iteration k is proved in harness *_link_<k> (compiled with -DVX_K=k: asserted at iteration k, assumed at the others)
+ * and assumed everywhere else: one division-uniqueness query per digit position instead of 20 in one formula (15 s each on SAT). */
+#ifdef VX_K
+#define VX_G_LINK_CHECK(cond) do { if (vx_g_i == VX_K) __CPROVER_assert(cond, "[C04][C01] ghost: |value| == 10 * |value / 10| + digit (truncating division, also for negative values)"); __CPROVER_assume(cond); } while (0)
+#else
+#define VX_G_LINK_CHECK(cond) __CPROVER_assume(cond)
+#endif
 #define VX_G_LINK(m) do { if (vx_g_i >= 1 && vx_g_i < 22) { \
-    __CPROVER_assert(vx_gv[vx_g_i - 1] == 10 * (m) + vx_gd[vx_g_i - 1] && (m) <= UINT64_MAX / 10, "[C04][C01] ghost: |value| == 10 * |value / 10| + digit (truncating division, also for negative values)"); \
-    __CPROVER_assume(vx_gv[vx_g_i - 1] == 10 * (m) + vx_gd[vx_g_i - 1] && (m) <= UINT64_MAX / 10); } } while (0)
+    VX_G_LINK_CHECK(vx_gv[vx_g_i - 1] == 10 * (m) + vx_gd[vx_g_i - 1] && (m) <= UINT64_MAX / 10); } } while (0)
 #define VX_G_DIGIT(v) do { uint64_t vx_m = VX_MAG(v); \
     __CPROVER_assert(vx_g_i < 20, "[C04] ghost: at most 20 digits are generated"); \
     VX_G_LINK(vx_m); \
